@@ -554,7 +554,8 @@ class Stats:
 
 
 class Engine:
-    def __init__(self, max_decisions=4000, max_ticks=100000, query_timeout_ms=60000, max_paths=200000):
+    def __init__(self, max_decisions=4000, max_ticks=100000, query_timeout_ms=60000, max_paths=200000, pinned=None):
+        self.pinned = dict(pinned or {})      # input name -> concrete value (counterexample refinement)
         self.max_decisions = max_decisions
         self.max_ticks = max_ticks
         self.query_timeout_ms = query_timeout_ms
@@ -584,6 +585,10 @@ class Engine:
 
     # ---- symbolic inputs
     def sym_int(self, name, lo=None, hi=None, width=W):
+        if name in self.pinned:
+            v = int(self.pinned[name])
+            self.inputs[name] = z3.BitVecVal(v, width)
+            return v
         t = z3.BitVec(self.fresh_name(name), width)
         self.inputs[name] = t
         if lo is not None:
@@ -598,11 +603,19 @@ class Engine:
         return ts
 
     def sym_bytes(self, name, n, mutable=False):
+        if name in self.pinned:
+            v = self.pinned[name]
+            b = bytes.fromhex(v) if isinstance(v, str) else bytes(v)
+            self.inputs[name] = [z3.BitVecVal(x, 8) for x in b]
+            return bytearray(b) if mutable else b
         ts = self.sym_byte_terms(name, n)
         self.inputs[name] = ts
         return SymBytes(ts, mutable)
 
     def sym_bool(self, name):
+        if name in self.pinned:
+            self.inputs[name] = z3.BoolVal(bool(self.pinned[name]))
+            return bool(self.pinned[name])
         t = z3.Bool(self.fresh_name(name))
         self.inputs[name] = t
         return SymBool(t)
